@@ -194,4 +194,62 @@ def LATE_UNITS():
 ASSUMPTIONS = ["A1: floats are mathematical reals", "A3: brentq returns a root inside its bracket (implied spread); bracket adequacy not checked",
                "sign conventions of margin_tail_integral / tail_integrals at negative arguments (+mass of the joint default set for two names, (-1)^d for d names) are C12's contract"]
 TRUSTED_BASE = ["z3 5.1", "pyvc interpreter + numpy models"]
-BOUNDED = []
+
+
+class ChainDefaultRate2d:
+    """bounded (native): two names, Clayton copula of two HEM margins, real CTMCCredit grid (h = 0.01, levels (-0.12, -0.2)) and
+    real MarkovChainLevyCopula: the total rate of the chain states with at least one coordinate below its threshold
+      (a) equals the joint Levy mass of the default region INSIDE the grid's box, by inclusion-exclusion over three
+          rectangles of the chain's own model (exact to rounding), and
+      (b) equals CFLevyCopulaModel._theta evaluated on the chain's truncated model -- the closed form the property names."""
+    name = "bounded:chain-default-rate-2d"
+    tier = "quick"
+
+    def run(self, tier, seed):
+        from contracts import battery
+        from rpylib.grid.spatial import CTMCCredit
+        from rpylib.process.markovchain.markovchainlevycopula import MarkovChainLevyCopula
+        from rpylib.distribution.sampling import SamplingMethod
+        from rpylib.numerical.closedform.cflevycopula import CFLevyCopulaModel
+        viol, samples, ev = [], [], 0
+        for sym in (True, False):
+            ev += 1
+            cm = battery.copula_model(2, "clayton")
+            levels = [-0.12, -0.2]
+            g = CTMCCredit(h=0.01, level_a=levels, model=cm, symmetric_grid=sym)
+            proc = MarkovChainLevyCopula(levy_copula_model=cm, grid=g, method=SamplingMethod.INVERSION)
+            mt = proc.model
+            axes, o = g.axes, g.origin_coordinate.value
+            lo = lambda ax, i: 0.5 * (ax[max(i - 1, 0)] + ax[i])
+            hi = lambda ax, i: 0.5 * (ax[i] + ax[min(i + 1, len(ax) - 1)])
+            tot = dflt = 0.0
+            for i in range(len(axes[0])):
+                for j in range(len(axes[1])):
+                    if (i, j) == (o[0], o[1]):
+                        continue
+                    m = float(mt.mass(a=(lo(axes[0], i), lo(axes[1], j)), b=(hi(axes[0], i), hi(axes[1], j))))
+                    tot += m
+                    if axes[0][i] < levels[0] or axes[1][j] < levels[1]:
+                        dflt += m
+            l, r = [ax[0] for ax in axes], [ax[-1] for ax in axes]
+            box = float(mt.mass(a=(l[0], l[1]), b=(levels[0], r[1])) + mt.mass(a=(l[0], l[1]), b=(r[0], levels[1])) - mt.mass(a=(l[0], l[1]), b=(levels[0], levels[1])))
+            theta_t = float(CFLevyCopulaModel(mt)._theta(levels))
+            info = {"grid": f"CTMCCredit(h=0.01, levels={levels}, symmetric_grid={sym})", "model": "Clayton(0.7, 0.3) of two HEM margins", "chain_default_region_rate": dflt,
+                    "mass_of_the_default_region_inside_the_box": box, "closed_form_theta_on_the_truncated_model": theta_t, "closed_form_theta_on_the_full_model": float(CFLevyCopulaModel(cm)._theta(levels)),
+                    "sum_of_all_rates": tot, "reported_intensity": float(proc.intensity())}
+            samples.append(info)
+            tag = "symmetric" if sym else "one-sided"
+            if abs(dflt - box) > 1e-10 * max(1.0, abs(box)) or abs(tot - proc.intensity()) > 1e-9 * tot:
+                viol.append({"obligation": f"{self.name}[{tag}]::equals-the-mass-of-the-default-region-inside-the-box", "bounded": self.name, "witness": info})
+            if abs(dflt - theta_t) > 1e-9 * max(1.0, abs(theta_t)):
+                viol.append({"obligation": f"{self.name}[{tag}]::equals-the-closed-form-on-the-truncated-model", "bounded": self.name, "witness": info})
+        return {"name": self.name, "evaluations": ev, "distinct_nontrivial": ev, "violations": viol, "samples": samples[:2],
+                "bound": "one 2-name model, credit grid symmetric / one-sided, h = 0.01"}
+
+    def replay(self, rec):
+        r = self.run("quick", 0)
+        hit = [v for v in r["violations"] if v["obligation"] == rec["obligation"]]
+        return (bool(hit), hit[0]["witness"] if hit else {})
+
+
+BOUNDED = [ChainDefaultRate2d()]
